@@ -6,6 +6,8 @@ import (
 	"context"
 	"errors"
 	"fmt"
+	"github.com/transparency-dev/witness/internal/persistence"
+	"github.com/transparency-dev/witness/internal/verif/kit/seams"
 	"math/rand/v2"
 	"os"
 	"strings"
@@ -613,14 +615,23 @@ func chainReal(run *ev.Run, unit int64, r *rand.Rand, dir string) {
 	}
 	defer st.Close()
 	keys, _ := wit.NewWitKeys(r, []bool{false, true}, true)
-	rn, err := wit.NewRunner(u, keys, st, nil)
+	var hook *seams.HookStore
+	rn, err := wit.NewRunner(u, keys, st, func(p persistence.LogStatePersistence) persistence.LogStatePersistence {
+		hook = seams.NewHookStore(p)
+		return hook
+	})
 	if err != nil {
 		run.Inconclusive(err.Error())
 		return
 	}
 	adapter := omniwitness.VerifWitnessAdapter(rn.W)
 	truth := func() []byte {
-		cp, err := rn.W.GetCheckpoint(l.ID)
+		// read below the fault seam, straight from the store the witness writes to
+		ro, err := st.P.ReadOps(l.ID)
+		if err != nil {
+			return nil
+		}
+		cp, err := ro.GetLatest()
 		if err != nil {
 			return nil
 		}
@@ -651,6 +662,20 @@ func chainReal(run *ev.Run, unit int64, r *rand.Rand, dir string) {
 		w := &recorder{inner: adapter, s: s, truth: truth}
 		var evs []event
 		var mu sync.Mutex
+		if size > 0 && r.IntN(3) == 0 {
+			// one transient failure of the store's read path: the attempt must fail or be retried, never be
+			// taken for "the witness holds nothing"
+			op := []string{seams.OpReadOps, seams.OpRGet}[r.IntN(2)]
+			armed := true
+			hook.SetHook(func(gotOp, id string) error {
+				if armed && gotOp == op {
+					armed = false
+					run.Count("chain_read_faults")
+					return errors.New("injected: database is locked")
+				}
+				return nil
+			})
+		}
 		ctx, cancel := context.WithTimeout(context.Background(), 3*time.Second)
 		o := opts(l, nil, w, 0, next, &evs, &mu)
 		inner := o.FetchProof
@@ -665,6 +690,7 @@ func chainReal(run *ev.Run, unit int64, r *rand.Rand, dir string) {
 		}
 		ret, ferr := feeder.FeedOnce(ctx, o)
 		cancel()
+		hook.SetHook(nil)
 		trace = append(trace, fmt.Sprintf("feed %d->%d: err=%v", size, next, ferr))
 		run.Count("evaluations")
 		run.Count("chain_cycles")
